@@ -7,7 +7,8 @@ PROP = {'id': 'C03',
                'JobSubmitter._build_results',
                'HpcSubmitter._update_completed_jobs',
                'HpcSubmitter._cancel_job',
-               'JobQueue._check_completions'],
+               'JobQueue._check_completions',
+               'HpcSubmitter._make_batch'],
  'native': ['HpcSubmitter.run', 'JobSubmitter._handle_completion', 'JobQueue._check_completions', 'JobQueue.process_queue'],
  'lemmas': ['lemma_c03_unique_classification'],
  'records': ['Result', 'JobSubmitter'],
